@@ -677,16 +677,16 @@ def finish(c):
 
 def gen_cases(rng, tier):
     cases = []
-    n_pos = 72 if tier == "quick" else 900
+    n_pos = 72 if tier == "quick" else 600
     for i in range(n_pos):
         cases.append(finish(base_case(rng, i, tier, big=(i % 36 == 35))))
-    n_t = 54 if tier == "quick" else 1800
+    n_t = 54 if tier == "quick" else 1200
     for i in range(n_t):
         c = base_case(rng, i, tier)
         cases.append(finish(make_tamper(rng, c)))
     if tier == "thorough":
         # every byte position of both blobs of small cases, for every MAC
-        for i in range(18):
+        for i in (0, 2, 4, 9, 13, 17):            # two combinations per MAC
             for field in ("pair_data", "cfg_data"):
                 probe = base_case(core.Rng(1000 + i), i, tier)
                 g = probe["pairs"][probe["good"]]
@@ -706,7 +706,7 @@ def gen_cases(rng, tier):
         for j, ln in enumerate([0, 16, 32]):
             cases.append(finish(make_pad_tamper(rng, base_case(rng, 3 * r + j + 7, tier, cfg_len=ln), "cfg_data", "last")))
         cases.append(finish(make_pad_tamper(rng, base_case(rng, r + 11, tier, keydict_blocks=True), "pair_data", "last")))
-    n_w = 18 if tier == "quick" else 360
+    n_w = 18 if tier == "quick" else 240
     for i in range(n_w):
         cases.append(finish(make_wrongpw(rng, base_case(rng, i, tier))))
     reps = 1 if tier == "quick" else 6
